@@ -47,6 +47,40 @@ def run_real(dec_cls, blank_sym, rows, k, pruning, lm=None, **kw):
     return dec, letters
 
 
+def traced_call(dec, L, **kw):
+    """Run the real decoder and record, without touching its source, the beam it holds at the START of every frame:
+    compute_Pb is called exactly once per frame with the current (Pb, Pnb); find_new_prefixes returns the new prefixes."""
+    from pero_ocr.decoding import decoders as dm
+    frames = []
+    cur = {'prefixes': [()]}
+    orig_pb, orig_fnp = dec.compute_Pb, dm.find_new_prefixes
+
+    def pbw(Pb_old, Pnb_old, P_blank):
+        frames.append(([tuple(int(c) for c in p) for p in cur['prefixes']], np.array(Pb_old, dtype=float), np.array(Pnb_old, dtype=float)))
+        return orig_pb(Pb_old, Pnb_old, P_blank)
+
+    def fnp(*a, **k):
+        r = orig_fnp(*a, **k)
+        cur['prefixes'] = [tuple(p) for p in r[0]]
+        return r
+    plm = {}
+    orig_plm = dec.compute_Plm
+
+    def plmw(Plm_old, lm_preds):
+        plm[len(frames) - 1] = np.array(Plm_old, dtype=float)
+        return orig_plm(Plm_old, lm_preds)
+    dec.compute_Pb, dm.find_new_prefixes, dec.compute_Plm = pbw, fnp, plmw
+    try:
+        bag = dec(L, **kw)
+    finally:
+        del dec.compute_Pb
+        del dec.compute_Plm
+        dm.find_new_prefixes = orig_fnp
+    if kw.get('return_h'):
+        return bag, [f + (plm.get(i),) for i, f in enumerate(frames)]
+    return bag, frames
+
+
 def hyps_of(bag):
     return [(tuple(ord(ch) - 97 for ch in h.transcript), float(h.vis_sc), None if h.lm_sc is None else float(h.lm_sc)) for h in bag]
 
@@ -66,6 +100,7 @@ def run(ctx):
                         'np.argpartition returns some top-k set (IsTopK); cases with cut margin < 1e-6 are skipped']
     n = 900 if ctx.quick() else 12000
     reqs, impl = [], []
+    treqs, timpl = [], []
     for it in range(n):
         rows = pb.gen_matrix(rng)
         if pb.near_threshold(rows):
@@ -91,8 +126,12 @@ def run(ctx):
                 dec(pb.to_logits(pb.gen_matrix(rng, C=C)))
             except Exception:
                 pass
+        trace = None
         try:
-            bag = dec(L)
+            if rng.random() < 0.5:
+                bag, trace = traced_call(dec, L)
+            else:
+                bag = dec(L)
             got = hyps_of(bag)
         except ValueError as e:
             got = 'reject'
@@ -162,6 +201,9 @@ def run(ctx):
         ctx.sample(dict(inp, hyps=[[list(t), v] for t, v, _ in got]), limit=4)
         reqs.append(dict(p='C02', op='decode', M=[[pb.rat(x) for x in r] for r in P], k=k, thr=pb.rat(thr), tol=pb.rat(pb.TOL), lm=None))
         impl.append((inp, got))
+        if trace is not None and len(trace) == T:
+            treqs.append(dict(p='C02', op='trace', M=[[pb.rat(x) for x in r] for r in P], k=k, thr=pb.rat(thr), lm=None))
+            timpl.append((inp, trace))
     # unnormalised rejection in the model
     if ctx.driver_ok:
         rep = common.Driver(ctx).batch(reqs)
@@ -181,6 +223,31 @@ def run(ctx):
             elif any(not close(math.exp(gd[t]), float(md[t])) for t in md):
                 ctx.disagree('C02 scores differ', inp, {str(t): math.exp(v) for t, v in gd.items()}, {str(t): float(v) for t, v in md.items()})
             else:
+                ctx.traces_validated += 1
+        # per-frame correspondence: the beam the real decoder holds at the start of frame t+1 (prefixes with Pb and Pnb separately)
+        # = the model's beam after frame t, until the first (near-)tie at a cut
+        trep = common.Driver(ctx).batch(treqs)
+        for r, (inp, trace) in zip(trep, timpl):
+            m = r.get('ok')
+            if m is None:
+                ctx.disagree('C02 trace: model error', inp, None, r)
+                continue
+            okc = True
+            for t in range(len(trace) - 1):
+                mg = m[t]['margin']
+                if mg is not None and F(mg[0], mg[1]) < F(1, 10 ** 6):
+                    ctx.count('trace_frames_skipped_after_tie', len(trace) - 1 - t)
+                    break
+                pre, Pb_, Pnb_ = trace[t + 1]
+                mb = {tuple(e[0]): (float(F(*e[1])), float(F(*e[2]))) for e in m[t]['beam']}
+                gb = {p: (math.exp(a), math.exp(b)) for p, a, b in zip(pre, Pb_, Pnb_)}
+                if set(mb) != set(gb) or any(not close(gb[p][0], mb[p][0]) or not close(gb[p][1], mb[p][1]) for p in mb):
+                    ctx.disagree('C02 trace: beam after frame %d differs (prefix -> (Pb, Pnb))' % t, inp,
+                                 {str(p): v for p, v in sorted(gb.items())}, {str(p): v for p, v in sorted(mb.items())})
+                    okc = False
+                    break
+                ctx.count('trace_frames_compared')
+            if okc:
                 ctx.traces_validated += 1
         # the model must reject what the code rejects
         rej = common.Driver(ctx).batch([dict(p='C02', op='decode', M=[[[1, 2], [1, 4]], [[1, 2], [1, 2]]], k=2, thr=[0, 1], tol=pb.rat(pb.TOL), lm=None)])
